@@ -16,13 +16,16 @@ ROOT = cf.ROOT
 
 # which suites decide which property, per tier
 PLAN = {
-    "C01": {"quick": ["struct3", "struct3c"], "thorough": ["struct3", "struct3c", "struct4"]},
-    "C03": {"quick": ["struct3"], "thorough": ["struct3", "struct4"]},
-    "C04": {"quick": ["struct3"], "thorough": ["struct3", "struct4"]},
-    "C05": {"quick": ["struct3"], "thorough": ["struct3", "struct4"]},
-    "C06": {"quick": ["struct3"], "thorough": ["struct3", "struct4"]},
-    "C11": {"quick": ["struct3"], "thorough": ["struct3", "struct3c", "struct4"]},
-    "C20": {"quick": ["struct3"], "thorough": ["struct3", "struct4"]},
+    "C01": {"quick": ["struct3", "struct3c", "seg13"], "thorough": ["struct3", "struct3c", "struct4", "seg13", "seg22", "seg3d"]},
+    "C03": {"quick": ["struct3"], "thorough": ["struct3", "struct4", "seg13"]},
+    "C04": {"quick": ["struct3"], "thorough": ["struct3", "struct4", "seg13"]},
+    "C05": {"quick": ["struct3"], "thorough": ["struct3", "struct4", "seg13"]},
+    "C06": {"quick": ["struct3"], "thorough": ["struct3", "struct4", "seg13"]},
+    "C07": {"quick": ["seg13", "seg3d"], "thorough": ["seg13", "seg22", "seg3d", "seg13n"]},
+    "C08": {"quick": ["seg13", "seg3d"], "thorough": ["seg13", "seg22", "seg3d", "seg13n"]},
+    "C09": {"quick": ["seg13", "seg3d"], "thorough": ["seg13", "seg22", "seg3d", "seg13n"]},
+    "C11": {"quick": ["struct3", "seg13"], "thorough": ["struct3", "struct3c", "struct4", "seg13", "seg22"]},
+    "C20": {"quick": ["struct3", "seg13"], "thorough": ["struct3", "struct4", "seg13"]},
 }
 
 NONTRIVIAL_RULE = {
@@ -92,7 +95,7 @@ def run(prop, tier, seed, replay_path=None):
         shutil.rmtree(scratch_root, ignore_errors=True)
         return 2
     # ---- verdict ----------------------------------------------------------------------
-    rdir = os.path.join(ROOT, "replays", prop)
+    rdir = os.path.join(cf.out_dir("replays"), prop)
     n_viol = 0
     if violations:
         os.makedirs(rdir, exist_ok=True)
